@@ -286,6 +286,10 @@ func runPoints(c *drv.Ctx, lp *LabProp, l *lab.Lab, pts []*Point) {
 				r.pt.Diverged[r.v.Name] = o.Diverged
 			case o.Hang:
 				r.pt.Hang[key] = true
+				if os.Getenv("VERIF_DEBUG") != "" && j == 0 {
+					_ = os.WriteFile("/tmp/hang-input.txt", []byte(r.pt.Input), 0o644)
+					fmt.Fprintf(os.Stderr, "---- watchdog: %s entry %d input of %d bytes (%q...) reference steps %d\n%s\n", key, r.pt.Entry, len(r.pt.Input), clip(r.pt.Input, 60), r.pt.Ref.Stats.Steps, r.pt.Case.G.String())
+				}
 			case o.Died != "":
 				r.pt.Died[key] = o.Died
 			case o.Resp.Err != "":
